@@ -105,11 +105,13 @@ def check_program(col, pp, cfg, prog, queries=None, draw=None):
         if q['what'] == 'flows':
             col.label('q:flows')
             fin, fout = [0.0] * nw, [0.0] * nw
+            mag = [0.0] * nw        # size of the well itself: a flow is a difference of two such sizes (float cancellation)
             for i in tsteps:
                 b = sizes(world, eager.snapshots[i][key], fam) if key in eager.snapshots[i] else [0.0] * nw
                 a = sizes(world, eager.snapshots[i + 1][key], fam)
                 for w in range(nw):
                     d = (a[w] - b[w]) * scale
+                    mag[w] = max(mag[w], abs(a[w]) * scale, abs(b[w]) * scale)
                     if d > 0:
                         fin[w] += d
                     else:
@@ -128,7 +130,8 @@ def check_program(col, pp, cfg, prog, queries=None, draw=None):
                 flat = list(arr.flatten()) if is_plate else [float(g)]
                 bad = None
                 for w in range(nw):
-                    tol = 0.5 * 10 ** -p * 1.000001 + (2 * len(tsteps) + 2) * grain + 1e-9 * abs(exp[w])
+                    tol = 0.5 * 10 ** -p * 1.000001 + (2 * len(tsteps) + 2) * grain + 1e-9 * abs(exp[w]) + \
+                        8 * len(tsteps) * 2.3e-16 * mag[w]
                     if flat[w] < -tol:
                         bad = ('negative', w)
                     elif abs(flat[w] - exp[w]) > tol:
